@@ -3,7 +3,7 @@
 //! stdin: one JSON script per line:
 //!  {"registry": {"<pkg>": {"kind":"versions","vs":[..]} | {"kind":"not_found"} | {"kind":"invalid"}},
 //!   "prefill": [{"name":..,"vs":[..]}], "no_store": bool, "config": <json answer> | "none" | "error",
-//!   "steps": [{"op":"open"|"change","uri":..,"text":..} | {"op":"close","uri":..} | {"op":"reply","name":..} |
+//!   "steps": [{"op":"open"|"change","uri":..,"text":..[,"pre_texts":[..] (change: earlier full-text changes of the same notification)]} | {"op":"close","uri":..} | {"op":"reply","name":..} |
 //!             {"op":"action","uri":..,"line":n,"character":n} | {"op":"config_answer"}]}
 use crate::{Args, emit};
 use futures::{SinkExt, StreamExt};
@@ -177,7 +177,10 @@ async fn run_script(script: &Value) -> Value {
             "change" => {
                 let (u, t) = (st["uri"].as_str().unwrap(), st["text"].as_str().unwrap());
                 docs.insert(u.to_string(), t.to_string());
-                let _ = service.call(note("textDocument/didChange", json!({"textDocument": {"uri": u, "version": 2}, "contentChanges": [{"text": t}]}))).await;
+                // a notification may carry several full-text changes, applied in order: the last one is the document
+                let mut changes: Vec<Value> = st["pre_texts"].as_array().map(|a| a.iter().map(|x| json!({"text": x})).collect()).unwrap_or_default();
+                changes.push(json!({"text": t}));
+                let _ = service.call(note("textDocument/didChange", json!({"textDocument": {"uri": u, "version": 2}, "contentChanges": changes}))).await;
             }
             "close" => {
                 let u = st["uri"].as_str().unwrap();
